@@ -6,15 +6,16 @@ import re
 import vlib
 from checks import common
 
-LEAF = {
-    "KText": ['<mj-text>A b</mj-text>', '<mj-text color="#112233" padding="3px 7px">Some text</mj-text>', '<mj-text align="right" font-size="20px">x</mj-text>'],
+LEAF = {   # %s = the leaf's content (a sentinel)
+    "KText": ['<mj-text>%s</mj-text>', '<mj-text color="#112233" padding="3px 7px">%s</mj-text>', '<mj-text align="right" font-size="20px">%s</mj-text>'],
     "KDivider": ['<mj-divider/>', '<mj-divider border-width="2px" border-color="red" padding="1px"/>'],
     "KSpacer": ['<mj-spacer height="5px"/>', '<mj-spacer/>'],
     "KImage": ['<mj-image src="a.png"/>', '<mj-image src="https://x/a.png" alt="a" width="50px" padding="0"/>'],
     "KImageLink": ['<mj-image src="a.png" href="h"/>', '<mj-image src="a.png" href="https://x/" target="_blank" border-radius="3px"/>'],
-    "KButton": ['<mj-button>B</mj-button>', '<mj-button background-color="#123456" color="white" inner-padding="1px 2px">Go</mj-button>'],
-    "KButtonLink": ['<mj-button href="x">B</mj-button>', '<mj-button href="https://x/" border-radius="0" align="left">Go</mj-button>'],
+    "KButton": ['<mj-button>%s</mj-button>', '<mj-button background-color="#123456" color="white" inner-padding="1px 2px">%s</mj-button>'],
+    "KButtonLink": ['<mj-button href="x">%s</mj-button>', '<mj-button href="https://x/" border-radius="0" align="left">%s</mj-button>'],
 }
+WITH_TEXT = ("KText", "KButton", "KButtonLink")
 SEC_ATTRS = ["", "", ' padding="0"', ' background-color="#eeeeee"', ' padding="10px 30px" text-align="left"', ' border="1px solid #000"', ' direction="rtl"']
 COL_ATTRS = ["", "", ' width="50%"', ' background-color="#fff" vertical-align="middle"', ' css-class="cc"', ' width="120px"']   # column padding / border add a gutter table: outside the modelled grammar
 WRAP_ATTRS = ["", "", ' padding="0"', ' background-color="#dddddd"', ' padding="10px 20px"', ' border="2px solid #000"']
@@ -25,9 +26,20 @@ def gen_doc(rng):
     """-> (coq term of type Skel.Emit.body, mjml source, feature tags)"""
     tags = set()
 
+    sent = [0]
+
+    def leaf():
+        k = rng.choice(list(LEAF))
+        m = rng.choice(LEAF[k])
+        if k in WITH_TEXT:
+            sent[0] += 1
+            t = "S%dX" % sent[0]
+            return '%s (lit "%s")' % (k, t), m % t
+        return k, m
+
     def col():
-        ks = [rng.choice(list(LEAF)) for _ in range(rng.choice([0, 1, 1, 2, 3]))]
-        return ("[" + "; ".join(ks) + "]", "<mj-column%s>%s</mj-column>" % (rng.choice(COL_ATTRS), "".join(rng.choice(LEAF[k]) for k in ks)))
+        ks = [leaf() for _ in range(rng.choice([0, 1, 1, 2, 3]))]
+        return ("[" + "; ".join(t for t, _ in ks) + "]", "<mj-column%s>%s</mj-column>" % (rng.choice(COL_ATTRS), "".join(m for _, m in ks)))
 
     def sec():
         if rng.random() < 0.7:
@@ -69,30 +81,36 @@ def tie(ck, hb, failing, ok, n):
             continue
         rows.append((i, term, r["html"]))
         ck.count("core:" + src, len(tags) >= 3, tags=["core-grammar"] + tags)
-    mism, errs = [], []
+    mism, tmism, errs = [], [], []
     if ok and rows:
         shards = [rows[k:k + 20] for k in range(0, len(rows), 20)]
 
         def work(a):
             k, sh = a
             body = ("From Coq Require Import List String.\nFrom GV Require Import Base.Bytes Skel.Emit.\nImport ListNotations.\nOpen Scope string_scope.\n"
-                    "Definition M := Eval vm_compute in skel_mismatches [\n" +
-                    ";\n".join("(%d, %s, lit %s)" % (i, t, vlib.coq_string(h)) for i, t, h in sh) + "].\nPrint M.\n")
+                    "Definition cases : list (nat * body * bytes) := [\n" +
+                    ";\n".join("(%d, %s, lit %s)" % (i, t, vlib.coq_string(h)) for i, t, h in sh) + "].\n"
+                    "Definition M := Eval vm_compute in (skel_mismatches cases, text_mismatches cases).\nPrint M.\n")
             eok, so, se, dt = vlib.coq_eval("emit_%s_%d" % (ck.pid, k), body)
-            m = re.search(r"M\s*=\s*(\[.*?\])\s*:\s*list", so.replace("\n", " ")) if eok else None
+            flat = so.replace("\n", " ")
+            m = re.search(r"M\s*=\s*\((\[.*?\]),\s*(\[.*?\])\)\s*:", flat) if eok else None
             if not m:
                 return None, (se or so)[-400:]
-            return [(int(a_), int(b_)) for a_, b_ in re.findall(r"\((\d+),\s*(\d+)\)", m.group(1))], ""
+            return ([(int(a_), int(b_)) for a_, b_ in re.findall(r"\((\d+),\s*(\d+)\)", m.group(1))], [int(x) for x in re.findall(r"\d+", m.group(2))]), ""
         with concurrent.futures.ThreadPoolExecutor(16) as ex:
             for m, e in ex.map(work, list(enumerate(shards))):
                 if m is None:
                     errs.append(e)
                 else:
-                    mism += m
+                    mism += m[0]
+                    tmism += m[1]
     ck.cov["skeleton_cases_evaluated_in_coq"] = len(rows) if not errs else 0
     for i, k in mism[:3]:
         failing.append(({"src": docs[i][1], "model_document": docs[i][0], "first_differing_token": k},
                         "the erased token stream of the real body differs from the skeleton model Skel.Emit.emit_body (the model or the code changed)"))
+    for i in tmism[:3]:
+        failing.append(({"src": docs[i][1], "model_document": docs[i][0]},
+                        "the text a reading of the real output shows differs from Skel.Emit.body_texts (content lost, duplicated, reordered or visible to one reading only)"))
     if errs:
         failing.append(({}, "evaluation of Skel.Emit cases failed: " + errs[0]))
-    return len(rows), len(mism)
+    return len(rows), len(mism) + len(tmism)
